@@ -95,6 +95,8 @@ class Gen:
         # B
         if k < 0.35 and not self.in_macro_body:
             n = r.choice(OBJ + list(FUN) + EOBJ_S + EOBJ_U + PLAIN[:2])
+            if self.feat.get("defined_bare") and r.random() < 0.4:
+                return ["defined", n]                        # `defined X` (F64 repaired)
             return ["defined", "(", n, ")"]
         return ["("] + self.expr("B", 1) + [")"]
 
@@ -519,6 +521,9 @@ CORPUS = [
      "IF 0x7FFFFFFFFFFFFFFF + 0 > 0 && 0xFFFFFFFFFFFFFFFF > 0", "T f", "ENDIF", "end"],
     # end markers handed down through nested expansions are all cleared: the macros work again on the next line
     ["D A : B", "D B : C x", "D C : 1", "T A", "T C B A", "F f a : A a", "T f ( B ) f ( C )", "T A B C", "end"],
+    # F64 (fixed by fixes/F64-defined-without-parentheses.patch): `defined X`
+    ["D X : 1", "IF defined X", "T yes", "ENDIF", "IF defined Y || ! defined X", "T no", "ELIF defined ( X ) && defined X",
+     "T both", "ENDIF", "D Z : X", "IF defined Z && Z == 1 && ( defined X )", "T z", "ENDIF", "end"],
     # F61: __VA_ARGS__ keeps its commas
     ["F H a ... : a __VA_ARGS__", "T H ( 8 , 9 , 10 )", "F I ... : [ __VA_ARGS__ ]", "T I ( 1 , 2 , 3 )", "end"],
     # evaluation / precedence sanity
@@ -540,7 +545,6 @@ KNOWN_REPLAYS = [
     ["D A : A B", "F f x : x", "T f ( A )", "end"],                                  # F62 no blue paint
     ["F f x : g ( x )", "F g x : f ( x )", "T f ( 1 )", "end"],                      # F63 mutual recursion: hang
     ["F f x : g ( x )", "F g x : f ( x ) x", "T f ( 1 )", "end"],                    # F63 mutual recursion: wrong tokens
-    ["D X : 1", "IF defined X", "T yes", "ENDIF", "end"],                            # F64 `defined X` without parentheses
     ["F f x : [ x ]", "D E :", "T f E ( 1 )", "end"],                                # F65 the token after a function-like name is expanded first
     ["D P : 1 , 2", "F f x : [ x ]", "T f ( P )", "end"],                            # F67 arguments are split AFTER they were expanded
     ["D E :", "F f x : [ x ]", "T f ( E )", "end"],                                  # F68 an argument that expands to nothing is "missing"
@@ -577,6 +581,8 @@ def main(argv):
         feat["elif_unevaluated"] = fl["elifChecksStateFirst"]
         feat["unary_after_binary"] = fl["unaryAfterBinaryFixed"]
         feat["nested_ternary"] = fl["nestedTernaryFixed"]
+        feat["defined_bare"] = fl["definedWithoutParens"]
+        ck.cov["counters"]["tree_defined_without_parens"] = int(fl["definedWithoutParens"])
         ck.cov["counters"]["tree_short_circuit"] = int(fl["shortCircuit"])
         ck.cov["counters"]["tree_elif_fixed"] = int(fl["elifChecksStateFirst"])
     except Exception as e:  # translator failure already recorded
